@@ -95,6 +95,13 @@ Finalise(e) ==       \* _get_outputs reaches its except/finally: e = TRUE for er
   /\ calling' = FALSE
   /\ UNCHANGED <<managed, isGen, pool, inCall, err, ncalls, nsub, last>>
 
+SetupFails ==        \* iter(iterable) or the pre_dispatch expression raises inside __call__, after start_call and before
+                     \* anything was dispatched: no abort, the backend is released (_terminate_and_reset), the object is reusable
+  /\ Idle /\ genLive /\ nsub = 0 /\ last.ev = "StartCall"
+  /\ genLive' = FALSE /\ running' = FALSE /\ early' = TRUE
+  /\ todo' = TR(calling, managed) /\ calling' = FALSE
+  /\ UNCHANGED <<managed, aborted, isGen, pool, inCall, err, ncalls, nsub, last>>
+
 ExitBegin ==         \* __exit__: unmanage, abort an unfinished generator run, _terminate_and_reset, then "Exit"
   /\ Idle /\ managed /\ (genLive => isGen)
   /\ managed' = FALSE
@@ -120,7 +127,7 @@ Submit ==            \* dispatch by the caller or by a completion callback while
   /\ UNCHANGED <<managed, calling, aborted, running, isGen, genLive, early, todo, ncalls>>
 
 Kinds == {"returned", "raised_task", "raised_iter", "timeout", "closed", "other", "none"}
-Next == \/ Enter \/ CallRejected \/ Done \/ ExitBegin \/ Step \/ Submit
+Next == \/ Enter \/ CallRejected \/ Done \/ ExitBegin \/ SetupFails \/ Step \/ Submit
         \/ \E g \in BOOLEAN : Call(g)
         \/ \E k \in Kinds : End(k)
         \/ \E e \in BOOLEAN : Finalise(e)
